@@ -188,9 +188,13 @@ AllSupVisited(t, f) ==
 \* ---- query wrappers ----
 QStart(t, f) ==
     /\ f.pc = "start" /\ f.p \in {"QSUP", "QALLSUP", "QINH", "QFITS"}
-    /\ stack' = Push(t, [f EXCEPT !.pc = "back"],
-                     CASE f.p = "QSUP" -> Frame("SUPOF", f.k) [] f.p = "QALLSUP" -> Frame("ALLSUP", f.k) [] OTHER -> Frame("INH", f.k))
-    /\ UNCHANGED <<cache, held, ret, prog, results, shard, panicked>>
+    /\ IF f.p = "QFITS" /\ f.b \notin Defined
+       THEN \* fits looks the base up first: an undefined base is answered without touching a cache
+            Finish(t, FALSE)
+       ELSE /\ stack' = Push(t, [f EXCEPT !.pc = "back"],
+                             CASE f.p = "QSUP" -> Frame("SUPOF", f.k) [] f.p = "QALLSUP" -> Frame("ALLSUP", f.k) [] OTHER -> Frame("INH", f.k))
+            /\ UNCHANGED results
+    /\ UNCHANGED <<cache, held, ret, prog, shard, panicked>>
 QBack(t, f) ==
     /\ f.pc = "back" /\ f.p \in {"QSUP", "QALLSUP", "QINH", "QFITS"}
     /\ held' = DropGuard(t, ret[t].g)
